@@ -132,6 +132,8 @@ T_PURGE = template("_cached_css_compile.cache_clear()")
 T_PURGE_API = template("cp._purge_cache()")
 T_DICT_HASH = template(
     "self._hash = hash(tuple([(type(x), x, type(y), y) for x, y in sorted(self._d.items())]))")
+T_DICT_HASH_VALUES = template("self._hash = hash(tuple(sorted(self._d.items())))")
+T_DICT_REDUCE = template("return (self.__class__, (self._d,))")
 T_DICT_COPY = template("self._d = dict(arg)")
 T_DICT_VALIDATE = template("self._validate(arg)")
 T_SUPER_INIT_ARG = template("super().__init__(arg)")
@@ -408,7 +410,7 @@ inductive CallArg
   deriving DecidableEq, Repr
 
 /-- `_hash` of `ImmutableDict`. -/
-inductive DictHashKind | sortedItemsTypeAndValue | unknown
+inductive DictHashKind | sortedItems | sortedItemsTypeAndValue | unknown
   deriving DecidableEq, Repr
 
 structure DictClassInfo where
@@ -863,6 +865,19 @@ def extract(src_root):
                 and same([dbody[2]], T_DICT_HASH):
             dict_hash_kind = 'sortedItemsTypeAndValue'
             dict_copies_arg = True
+        elif len(dbody) == 3 and same([dbody[0]], T_DICT_VALIDATE) and same([dbody[1]], T_DICT_COPY) \
+                and same([dbody[2]], T_DICT_HASH_VALUES):
+            dict_hash_kind = 'sortedItems'
+            dict_copies_arg = True
+    # pickling / copying of the map classes: `__reduce__` defined once, on the base, rebuilding through the constructor
+    # (so `_hash` is recomputed by the process that loads the object); no subclass overrides it or defines __getstate__ etc.
+    dr = class_def(ast_classes[dict_base], '__reduce__')
+    dict_reduce_via_ctor = bool(
+        dr is not None and positional_only_shape(dr, ['self']) and same(strip_doc(dr.body), T_DICT_REDUCE)
+        and all(def_name(dc, '__reduce__') == dict_base.__name__ for dc in dict_classes)
+        and all(not any(n in k.__dict__ for n in ('__reduce_ex__', '__getstate__', '__setstate__', '__getnewargs__',
+                                                   '__getnewargs_ex__', '__copy__', '__deepcopy__'))
+                for dc in dict_classes for k in dc.__mro__ if k.__module__.startswith('soupsieve')))
     # the only methods of the family that assign to `self.<attr>` (anything besides __init__ is a mutator)
     self_writers = []
     for dc in dict_classes:
@@ -905,7 +920,7 @@ def extract(src_root):
         'compileShapeOk': bool(shape_ok), 'passTestOk': bool(pass_test_ok),
         'passReturnsPattern': bool(pass_returns_pattern),
         'guards': guards, 'callTarget': call_target, 'callTargetOk': bool(call_target_ok), 'callArgs': call_args,
-        'dicts': dinfos, 'dictHashKind': dict_hash_kind, 'dictCopiesArg': dict_copies_arg,
+        'dicts': dinfos, 'dictHashKind': dict_hash_kind, 'dictCopiesArg': dict_copies_arg, 'dictReduceViaCtor': dict_reduce_via_ctor,
         'dictInitStmts': dict_init_stmts, 'dictSelfWriters': self_writers, 'dictSubInitsForward': sub_inits_forward,
         'mutatorNames': dict_mut,
     }
@@ -995,6 +1010,8 @@ def render(d):
     L.append('def dictHashKind : DictHashKind := .' + d['dictHashKind'])
     L.append('/-- `self._d = dict(arg)`: the caller\'s mapping is copied, not aliased -/')
     L.append('def dictCopiesArg : Bool := ' + b(d['dictCopiesArg']))
+    L.append('/-- `ImmutableDict.__reduce__` is `return (self.__class__, (self._d,))`, inherited unchanged by the subclasses; no other pickle / copy hook. -/')
+    L.append('def dictReduceViaCtor : Bool := ' + b(d['dictReduceViaCtor']))
     L.append('def dictInitStatements : List String := ' + slist(d['dictInitStmts']))
     L.append('/-- methods of the family that store into / delete from `self.…` -/')
     L.append('def dictSelfWriters : List String := ' + slist(d['dictSelfWriters']))
